@@ -228,6 +228,41 @@ theorem endedAt_set_self (sups : List Sup) (j : Nat) (a b : Sup) (h : sups[j]? =
   rw [List.getElem?_set, if_pos rfl, if_pos hlt]
   exact hb
 
+theorem wsum_partition4 {α : Type} (f1 f2 f3 f4 : α → Nat) (h : ∀ a, f1 a + f2 a + f3 a + f4 a = 1) :
+    ∀ l : List α, wsum f1 l + wsum f2 l + wsum f3 l + wsum f4 l = l.length := by
+  intro l
+  induction l with
+  | nil => rfl
+  | cons a l ih =>
+    have := h a
+    simp only [wsum, List.length_cons]
+    omega
+
+theorem cntS_partition (l : List Sup) :
+    cntS SPc.notStarted l + cntS SPc.isPe1 l + cntS SPc.noMark l + cntS SPc.isEnded l = l.length := by
+  apply wsum_partition4
+  intro a
+  cases a.pc <;> rfl
+
+theorem exists_of_wsum_pos {α : Type} (f : α → Nat) : ∀ (l : List α), 0 < wsum f l →
+    ∃ (j : Nat) (a : α), l[j]? = some a ∧ 0 < f a := by
+  intro l
+  induction l with
+  | nil => intro h; simp [wsum] at h
+  | cons x l ih =>
+    intro h
+    simp only [wsum] at h
+    by_cases hx : 0 < f x
+    · exact ⟨0, x, by simp, hx⟩
+    · obtain ⟨j, a, hj, ha⟩ := ih (by omega)
+      exact ⟨j + 1, a, by simpa using hj, ha⟩
+
+theorem exists_of_cntC_pos (q : CPc → Bool) (l : List Con) (h : 0 < cntC q l) :
+    ∃ (j : Nat) (a : Con), l[j]? = some a ∧ q a.pc = true := by
+  obtain ⟨j, a, hj, ha⟩ := exists_of_wsum_pos _ l h
+  refine ⟨j, a, hj, ?_⟩
+  cases hq : q a.pc <;> simp [hq] at ha ⊢
+
 theorem mem_of_getElem? {α : Type} {l : List α} {j : Nat} {a : α} (h : l[j]? = some a) : a ∈ l :=
   List.mem_iff_getElem?.mpr ⟨j, h⟩
 
